@@ -100,6 +100,16 @@ func c01TakeAndSend(c *core.Ctx) {
 		}
 	}
 	c.Check(R, sockFlush+"/Send-on-current-transport", send.Pos(), cur, "flush sends on s.Transport()")
+	// the readiness tests and the Send that clears writable are one critical section
+	n := 0
+	for _, cl := range u.Calls() {
+		if cl.Key == "transports.(Transport).Writable" || cl.Key == "engine.(*socket).ReadyState" {
+			n++
+			held := g.HeldAt(cl.Loc)
+			c.Check(R, keyf("%s/%s-tested-under-flushMu", sockFlush, cl.Name), cl.Pos(), held["socket.flushMu"], "two flush callers must not both see the transport writable: the test is evaluated with flushMu held")
+		}
+	}
+	c.Need(R, "readiness tests in flush", n, 2)
 }
 
 func writableTrue() core.Guard {
